@@ -4,7 +4,7 @@
    the real engine), and the documented semantics as an interpreter over syntax trees (ref). *)
 From Coq Require Import String List Bool Arith.
 Import ListNotations.
-From WZ Require Import Model.Template Proofs.TemplateProofs Proofs.TemplateInst.
+From WZ Require Import Model.Template Proofs.TemplateProofs Proofs.TemplateInst Proofs.TemplateLex.
 Open Scope string_scope.
 
 (* For every template of the grammar - text, variables, conditionals with or without else whose branches hold text,
@@ -14,10 +14,10 @@ Open Scope string_scope.
    conditions refer to the fields of the innermost enclosing map item (absent = false) or to the global conditions,
    every loop body is emitted once per item with the item's fields (falling back to the enclosing items and the
    global variables), the item itself, its index and first/last flags, recursively.
-   Partial: (1) the statement is about tokens - it covers the text-level engine for values and literal text
-   without braces (that link is run for every generated case, Corr/TemplateCorr.v code 3) and is false with
-   directive-like text in values (C16_refuted_value_reinterpreted); (2) a conditional inside a loop over items that
-   are not maps is outside typed_node; (3) blocks/inheritance and image placeholders are not modelled. *)
+   Partial: (1) the statement is about tokens - the text-level engine is covered by C16_text_is_reference_partial
+   below for values and literal text without an opening brace, and is false with directive-like text in values
+   (C16_refuted_value_reinterpreted); (2) a conditional inside a loop over items that are not maps is outside
+   typed_node; (3) blocks/inheritance and image placeholders are not modelled. *)
 Theorem C16_pipeline_is_reference_partial :
   forall e ns, wf_top ns = true -> forallb (typed_node (e_lists e)) ns = true -> env_ok e = true ->
   unlex (render_tk e (flatten ns)) = ref e ns.
@@ -47,6 +47,35 @@ Print Assumptions C16_example_premises.
 Theorem C16_example_text_level : render_str ex_env (unlex (flatten ex_ast)) = ref ex_env ex_ast.
 Proof. exact ex_text_level. Qed.
 Print Assumptions C16_example_text_level.
+
+(* ---- the link between the engine's text and the tokens (Proofs/TemplateLex.v) ----
+   Printing well-formed tokens (literals without an opening brace, names that are words and not this/else) and lexing
+   the text again gives the same tokens with adjacent literals joined and empty ones dropped. *)
+Theorem C16_lexer_roundtrip : forall ts, forallb tok_ok ts = true -> lex (unlex ts) = norm ts.
+Proof. exact lex_unlex. Qed.
+Print Assumptions C16_lexer_roundtrip.
+
+(* The engine goes back to text between its steps (after the variables, after every replacement inside a loop body,
+   after the loops); for data whose strings hold no opening brace every one of those steps only joins literals, and
+   the text the engine produces is the text of the token-level pipeline. *)
+Theorem C16_text_is_tokens :
+  forall e ts, env_clean e = true -> forallb tok_ok ts = true -> render_str e (unlex ts) = unlex (render_tk e ts).
+Proof. exact render_str_tk. Qed.
+Print Assumptions C16_text_is_tokens.
+
+(* Hence the property on the engine's text: for every template of the grammar whose literal text holds no opening
+   brace and all data whose strings hold none, rendering the template text yields exactly the documented rendering.
+   Partial: braces in literals and values are left to the correspondence check; (2) and (3) as above. *)
+Theorem C16_text_is_reference_partial :
+  forall e ns, wf_top ns = true -> forallb (typed_node (e_lists e)) ns = true -> env_ok e = true ->
+  env_clean e = true -> forallb tok_ok (flatten ns) = true ->
+  render_str e (unlex (flatten ns)) = ref e ns.
+Proof. exact render_text_ref. Qed.
+Print Assumptions C16_text_is_reference_partial.
+
+Theorem C16_example_text_premises : env_clean ex_env = true /\ forallb tok_ok (flatten ex_ast) = true.
+Proof. exact ex_text_premises. Qed.
+Print Assumptions C16_example_text_premises.
 
 (* known finding: "values are inserted verbatim" does not hold for a value with directive-like text *)
 Theorem C16_refuted_value_reinterpreted :
